@@ -7,7 +7,7 @@ from __future__ import annotations
 import ast
 
 from ..models import ModelEval, PyObj, Marker, Raised, fold
-from ..peval import Unsupported, RaisedInModel, ProgramRaised
+from ..peval import Model, Unsupported, RaisedInModel, ProgramRaised
 from ..source import AnalysisError
 from .core_models import (slice_key, ArrTok, RawTok, NdTok, QtyTok, OpTok, UnitTok, core_hooks, make_vector, vector_components, VECTOR_Q,
                           DG_Q, DS_Q, ARRAY_Q)
@@ -812,3 +812,36 @@ def check_copies_fold(run, tree):
             run.violated(construct, "src/osyris/core/dataset.py", "raises %s" % e, label)
         except ERR as e:
             run.unresolved(construct, "src/osyris/core/dataset.py", "cannot fold: %s" % e)
+    # ---- "fully independent": nothing mutable is reachable from both the deep copy and the original (whatever attribute holds it:
+    # members, metadata, the group -> dataset back link, ...)
+    def reachable(root):
+        seen, todo, path = {}, [(root, "<root>")], {}
+        while todo:
+            o, p = todo.pop()
+            if isinstance(o, (str, int, float, bool, type(None), bytes, Marker)) or (isinstance(o, Model) and "Unit" in getattr(o, "kinds", ())):
+                continue
+            if id(o) in seen:
+                continue
+            if isinstance(o, (PyObj, dict, list, set, Model)):
+                seen[id(o)] = (o, p)
+            if isinstance(o, PyObj):
+                todo.extend((v, p + "." + k) for k, v in o._attrs.items())
+            elif isinstance(o, dict):
+                todo.extend((v, p + "[%r]" % (k,)) for k, v in o.items())
+            elif isinstance(o, (list, tuple, set)):
+                todo.extend((v, p + "[...]") for v in o)
+        return seen
+    for label, root in (("deepcopy of a Dataset", ds), ("deepcopy of a Datagroup stored in a Dataset", gobj)):
+        construct = "%s::%s shares nothing mutable with the original" % (DS_Q if root is ds else DG_Q, label)
+        where = "src/osyris/core/dataset.py" if root is ds else "src/osyris/core/datagroup.py"
+        try:
+            r = ev.py_copy(root, deep=True)
+            a_, b_ = reachable(root), reachable(r)
+            shared = sorted(b_[k][1] for k in set(a_) & set(b_))
+            run.ob(construct, not shared and len(b_) >= len(a_), where, ("reachable from both: %s" % ", ".join(shared[:4])) if shared else
+                   "%d objects reachable from the copy, none of them reachable from the original" % len(b_),
+                   "the copy still points into the original (e.g. the group's link to its Dataset): updates through it change the original, and changes of the original show in the copy")
+        except (Raised, ProgramRaised) as e:
+            run.violated(construct, where, "raises %s" % e, label)
+        except ERR as e:
+            run.unresolved(construct, where, "cannot fold: %s" % e)
